@@ -69,6 +69,7 @@ Obs == [st    |-> [p \in Procs |-> Status(p)],
         rest  |-> [u \in Users |-> RestNow(u)],
         car   |-> carried, chg |-> charged, top |-> topups,
         q     |-> queue, qin |-> qin, valve |-> [r \in 1..nrec |-> rvalve[r]],
+        multi |-> multi,
         quiet |-> Quiescent /\ Blocked = {},
         dead  |-> Deadlocked]
 
@@ -106,11 +107,21 @@ GStep ==
   /\ IF RunSet # {} THEN Internal
      ELSE IF Len(hist) < MaxDepth THEN EnvStep ELSE Drain
   /\ hist' = IF RunSet' = {} THEN Append(hist, [ev |-> pend', obs |-> Obs']) ELSE hist
-  \* determinism of the replay: at most one goroutine blocked at a time, unless that is the end (deadlock)
+  \* determinism of the replay: at most one goroutine blocked at a time, unless that is the end (deadlock) ...
   /\ RunSet' = {} => (Cardinality(Blocked') <= 1 \/ Deadlocked')
+  \* ... and the loop of commitUpdate (Go map order) never has two records to wait for
+  /\ \A p \in Procs : pc'[p] \in {"m2", "ml"} =>
+        Cardinality({u \in qin' \ ploop'[p] : active'[u] # 0 /\ sh'[active'[u]] # 0}) + (IF pwait'[p] # 0 THEN 1 ELSE 0) <= 1
 
 GSpec == GInit /\ [][GStep]_gvars
 
-Done == ~ENABLED GStep
+\* terminal states, spelled out (no ENABLED: GStep constrains primed operators)
+AdminPossible(a, u) ==
+  /\ nadmin < MaxAdmin /\ dbx[u]
+  /\ CASE a = "drain" -> dbc[u] # Z [] a = "expire" -> ~dbe[u] [] a = "unexpire" -> dbe[u] [] OTHER -> TRUE
+NoEnv == /\ Parked = {}
+         /\ ntraffic >= MaxTraffic \/ LiveObjs = {}
+         /\ ~\E a \in AdminOps : \E u \in Users : AdminPossible(a, u)
+Done == RunSet = {} /\ (IF Len(hist) < MaxDepth THEN NoEnv ELSE ParkedIn = {})
 Emit == Done => PrintT(<<"BEHAVIOUR", ToJson([prog |-> [p \in Procs |-> op[p]], steps |-> hist])>>)
 =============================================================================
